@@ -8,9 +8,10 @@ cd /verif
 export CARGO_NET_OFFLINE=true
 T=/verif/.cache/target-cov
 BIN=$(ls -d ~/.rustup/toolchains/nightly-x86_64-unknown-linux-gnu/lib/rustlib/*/bin | head -1)
-(cd harness && CARGO_TARGET_DIR=$T cargo +nightly build --offline -Zprofile-rustflags \
+mkdir -p work/cov
+(cd harness && LLVM_PROFILE_FILE=/verif/work/cov/build-%p-%m.profraw CARGO_TARGET_DIR=$T cargo +nightly build --offline -Zprofile-rustflags \
    --config 'profile.dev.package.mini-mcmc.rustflags=["-Cinstrument-coverage"]' --config 'profile.dev.rustflags=["-Cinstrument-coverage"]' 2>&1 | tail -2)
-mkdir -p work/cov; rm -f work/cov/*.profraw
+rm -f work/cov/*.profraw
 for p in ${@:-C01 C02 C03 C04 C05 C06 C07 C08 C09 C10 C11 C12 C13 C14 C15 C16 C17 C18}; do
   mkdir -p work/cov/$p
   LLVM_PROFILE_FILE=/verif/work/cov/$p-%p-%m.profraw VERIF_TIER=quick $T/debug/harness $p /verif/work/cov/$p >/dev/null 2>&1 || echo "harness $p exit $?"
